@@ -12,7 +12,7 @@ LEVEL = 'exploration'
 RULE = ('compute_combined_features on every frame of 2 feature columns x 2 rows (quick) / x 3 rows (thorough) over the cell alphabet {"", 1, 11, 111, a, ab, b, ü, " "} '
         '(every prefix/suffix aliasing pattern), on 3- and 4-column frames built from every pair of different rows that alias under plain concatenation, orders 2..4, '
         'caps {1,2,large}; an int-typed family; oracle: equality pattern of each " AND " column == equality pattern of the value tuples, originals untouched, '
-        'count = min(cap, C(#features,k)), names in column order; a scoring family compares the interaction score with that of an explicit tuple column. '
+        'count = min(cap, C(#features,k)), names in column order; a scoring family compares the interaction score with that of an explicit tuple column; one 300 000-tuple column (collision count of a hash narrower than 64 bits). '
         'distinct_nontrivial = frames in which at least two rows differ in some constituent')
 ASSUMPTIONS = ['64-bit hash collisions are outside the alphabet (excluded by the statement)']
 
@@ -170,8 +170,39 @@ def _scoring(_):
     return st
 
 
+def _birthday(_):
+    """many distinct value tuples in one interaction column: a hash narrower than 64 bits shows collisions here (300k tuples: ~10 expected for 32 bits)"""
+    import pandas as pd
+    from outrank import core_ranking as cr
+    st = Stats()
+    n = 300000
+    xs = [str(i * 7919 % 1000003) for i in range(n)]
+    ys = [str(i % 977) + 'u' + str(i // 977) for i in range(n)]
+    harness.reset_state()
+    df = pd.DataFrame({'x': xs + xs[:1000], 'y': ys + ys[:1000], 'label': ['0', '1'] * ((n + 1000) // 2)})
+    args = harness.make_args(interaction_order=2, combination_number_upper_bound=10, heuristic='MI-numba-randomized')
+    ok, out = safe(cr.compute_combined_features, df, args, harness.NullBar())
+    st.count('evaluations')
+    st.count('nontrivial')
+    st.count('birthday_rows', n + 1000)
+    case = {'kind': 'birthday', 'n': n}
+    if not ok:
+        st.violation(case, f'raised {out}', {'kind': 'exception'})
+        return st
+    col = out['x AND y']
+    distinct = col.nunique()
+    exp = len(set(zip(df['x'], df['y'])))
+    if distinct != exp:
+        st.violation(case, f'{exp} distinct value tuples but only {distinct} distinct interaction values ({exp - distinct} collisions: far more than a 64-bit hash allows)', {'kind': 'collisions'})
+    if col.iloc[:1000].tolist() != col.iloc[n:n + 1000].tolist():
+        st.violation(case, 'equal value tuples received different interaction values', {'kind': 'aliasing'})
+    return st
+
+
 def _dispatch(item):
     k, job = item
+    if k == 'birthday':
+        return _birthday(job)
     return {'two': _two_col, 'multi': _multi_col, 'ints': _ints, 'scoring': _scoring}[k](job)
 
 
@@ -186,7 +217,7 @@ def run(ctx):
         np_ = len(aliasing_pairs(k))
         lim = np_ if (ctx.thorough or k == 3) else 600
         jobs += [('multi', (k, lo, hi)) for lo, hi in shards(lim, 48)]
-    jobs += [('ints', None), ('scoring', None)]
+    jobs += [('ints', None), ('scoring', None), ('birthday', None)]
     for st in pmap(_dispatch, jobs):
         ctx.stats.merge(st)
     ctx.extra['rows_two_column_family'] = nrows
@@ -197,4 +228,6 @@ def run(ctx):
 
 
 def eval_case(case):
+    if case.get('kind') == 'birthday':
+        return [v['what'] for v in _birthday(None).violations]
     return [m for _, m in judge(case['columns'], case['rows'], case['order'], case['cap'])]
